@@ -33,7 +33,7 @@ func controlFlowProfile() *profile {
 			"ev": 10, "decl": 5, "assign": 4, "incdec": 2, "yield": 14, "block": 3, "if": 10, "switch": 8, "tswitch": 3,
 			"for": 9, "break": 5, "continue": 4, "return": 3, "closure": 2, "callstmt": 2, "genlit": 1,
 		},
-		elems: []string{"int", "int", "string", "any"}, nGens: [2]int{1, 1},
+		elems: []string{"int", "int", "string", "any", "tr.Pt"}, nGens: [2]int{1, 1},
 		exclude: knownExclusions(),
 		scripts: []string{"std"}, fuel: 300,
 	}
@@ -42,6 +42,8 @@ func controlFlowProfile() *profile {
 func effectProfile() *profile {
 	p := controlFlowProfile()
 	p.name = "effects"
+	p.globals = true
+	p.elems = []string{"int", "int", "string", "any", "tr.Pt"}
 	p.vlProb = 35
 	p.w["ev"] = 16
 	p.w["assign"] = 6
@@ -58,7 +60,7 @@ func scopingProfile() *profile {
 			"ev": 8, "decl": 14, "assign": 8, "incdec": 4, "yield": 14, "block": 8, "if": 8, "switch": 7, "tswitch": 6,
 			"for": 7, "range": 5, "break": 2, "continue": 2, "return": 1, "closure": 9, "callstmt": 8, "genlit": 2,
 		},
-		elems: []string{"int", "int", "any"}, nGens: [2]int{1, 1},
+		elems: []string{"int", "int", "any", "tr.Pt"}, nGens: [2]int{1, 1}, globals: true,
 		exclude: knownExclusions(), scripts: []string{"std"}, fuel: 300, vlProb: 5,
 	}
 }
@@ -125,15 +127,17 @@ func init() {
 			"or a break/continue/return after a yield; distinct by hash(program)+input+script. The block-end table (every last-statement " +
 			"kind at the end of every block kind, with/without following statements) is enumerated completely as well.")
 		table := blockEndTable()
+		small := enumPrograms(rs.vol(4, 5), knownExclusions())
+		rs.exh = append(rs.exh, "all "+itoa(len(small))+" generator bodies with <= "+itoa(rs.vol(4, 5))+" statement nodes over {Ev, Yield, if, if-else, 3-clause for, switch, break, continue, return} (nesting <= 2, no dead code, >= 1 yield, known-finding shapes removed) x inputs 0..3")
 		spec := &diffSpec{
-			profiles: []*profile{controlFlowProfile()}, batchSize: 40, batches: rs.vol(30, 1000),
-			fixed: table,
+			profiles: []*profile{controlFlowProfile()}, batchSize: 40, batches: rs.vol(14, 1000),
+			fixed: append(table, small...),
 			nontrivial: func(p *Program, r *Record) bool {
 				return r.Yields >= 2 && (hasLoopTag(p) || p.hasTag("break-after-yield") ||
-					p.hasTag("continue-after-yield") || p.hasTag("return-after-yield") || p.hasTag("yielding-post") || p.hasTag("else-if") || p.Profile == "block-end-table")
+					p.hasTag("continue-after-yield") || p.hasTag("return-after-yield") || p.hasTag("yielding-post") || p.hasTag("else-if") || p.Profile == "block-end-table" || p.Profile == "exhaustive-small-bodies")
 			},
 		}
-		rs.exh = append(rs.exh, "block-end table: "+itoa(len(table))+" programs (13 block kinds x 38 last-statement kinds x 3 continuations, illegal combinations removed) x inputs 0..3")
+		rs.exh = append(rs.exh, "block-end table: "+itoa(len(table))+" programs (13 block kinds x 42 last-statement kinds x {nothing, event, yield after the block; yield, event+return inside the block after the statement}, illegal combinations removed) x inputs 0..3")
 		rs.runDiff(spec)
 	}}
 
@@ -192,7 +196,7 @@ func init() {
 			"non-trivial = the program delegates and the trace has >= 2 yields; distinct by hash(program)+input+script")
 		spec := &diffSpec{
 			profiles: []*profile{delegationProfile()}, batchSize: 20, batches: rs.vol(25, 500),
-			fixed: recursionPrograms(rs.tier == "thorough"),
+			fixed: append(recursionPrograms(rs.tier == "thorough"), yieldFromRows()...),
 			nontrivial: func(p *Program, r *Record) bool {
 				return r.Yields >= 2 && (p.hasTag("yieldfrom") || p.hasTag("generator-literal") || p.hasTag("recursion"))
 			},
@@ -213,6 +217,9 @@ func init() {
 		spec := &diffSpec{
 			profiles: []*profile{consumerProfile()}, batchSize: 30, batches: rs.vol(20, 400),
 			fixed: fixed, fixedStyles: true,
+			// "every occurrence of the iterator type is replaced consistently": for the type-position shapes a
+			// compiler failure or an output that does not build is this property's violation
+			ownsCompileFor: func(p *Program) bool { return len(p.Profile) > 6 && p.Profile[:6] == "shape:" },
 			nontrivial: func(p *Program, r *Record) bool {
 				return p.hasTag("consumer") && (p.hasTag("break-after-yield") || p.hasTag("return-after-yield") || p.hasTag("iterator-advanced-by-hand")) || len(p.Profile) > 6 && p.Profile[:6] == "shape:"
 			},
@@ -270,4 +277,25 @@ func itoa(n int) string {
 		s = "-" + s
 	}
 	return s
+}
+
+// yieldFromRows: the rows of the scoping table that delegate (shared with C05)
+func yieldFromRows() []*Program {
+	var out []*Program
+	for _, p := range scopingTable() {
+		uses := false
+		for _, d := range p.Decls {
+			walkStmts(d.Body, func(s *Stmt) {
+				if s.K == "yieldfrom" || (s.Post != nil && s.Post.K == "yieldfrom") {
+					uses = true
+				}
+			})
+		}
+		if uses {
+			q := renameProgram(p, "W"+p.Name[1:])
+			q.tag("yieldfrom")
+			out = append(out, q)
+		}
+	}
+	return out
 }
